@@ -28,6 +28,9 @@ func main() {
 		for i, c := range fixedBuffer() {
 			fmt.Fprintln(w, emitBuffer(fmt.Sprintf("c20-bfix-%d", i), c, r, st))
 		}
+		for i, c := range fixedApp() {
+			fmt.Fprintln(w, emitBuffer(fmt.Sprintf("c20-app-%d", i), c, r, st))
+		}
 		for i := 0; i < a.N; i++ {
 			if i%3 == 2 {
 				fmt.Fprintln(w, emitBuffer(fmt.Sprintf("c20-b-%d-%d", a.Seed, i), genBuffer(r), r, st))
